@@ -240,6 +240,11 @@ func runSession(t *tlog, o sessionOpts, rng *rand.Rand) (stats map[string]int, e
 		defer logging.SetLogger(nil)
 	}
 	s := sess.New(func(c *client.Config) {
+		if o.end == "backlog" {
+			// Config.Timeout is the dial timeout and nothing else: a tiny value must not change how long the event
+			// loop waits for handlers (the in-memory dialer of the harness does not look at it)
+			c.Timeout = time.Millisecond
+		}
 		if o.defRecov {
 			return
 		}
@@ -381,6 +386,23 @@ func runSession(t *tlog, o sessionOpts, rng *rand.Rand) (stats map[string]int, e
 		s.C.HandleFunc(v, mk("fg", "f1"))
 		s.C.Handle(v, mk("fg", "f2"))
 		s.C.HandleBG(v, mk("bg", "b1"))
+	}
+	// a one-shot foreground handler: it removes itself first and then goes on working for a while - the
+	// event loop has to wait for it like for any other handler of that line
+	if len(ls) > 6 {
+		var rm client.Remover
+		var once sync.Once
+		h3 := mk("fg", "f3")
+		rm = s.C.HandleFunc(ls[4].verb, func(c *client.Conn, l *client.Line) {
+			first := false
+			once.Do(func() { first = true })
+			if !first || atomic.LoadInt32(&gen2) == 1 {
+				return
+			}
+			rm.Remove()
+			time.Sleep(2 * time.Millisecond)
+			h3(c, l)
+		})
 	}
 	s.C.HandleFunc(client.CONNECTED, mk("conn", "f1"))
 	s.C.HandleFunc(client.CONNECTED, mk("conn", "f2"))
